@@ -117,6 +117,23 @@ def streams(seed, tier):
     out.append(Stream("special-values", "run", "stackops.check", sp,
                       "every stack type x 9 instructions on stacks of 2..5 items drawn from look-alike / extreme values: +-0.0, NaN payloads, infinities, repeated items, "
                       "empty and 600-element vectors, 300-character names, code items of 101..240 points"))
+    # two stack instructions in a row, executed by run() (the loop that dispatches them must not treat a repeated instruction specially)
+    pairs = []
+    c30 = list(DEFAULT_CFG); c30[4] = 30
+    for T, (field, mk) in TYPES.items():
+        for op1 in OPS:
+            for op2 in (op1, "SWAP", "DUP"):
+                n1, n2 = T + "." + op1, T + "." + op2
+                if n1 not in names or n2 not in names:
+                    continue
+                st = bystanders()
+                st[field] = [mk(k) for k in range(4)]
+                st["int"] = [1, 2, 0] + (st["int"] if T != "INTEGER" else [])
+                st["exec"] = [I(n1), I(n2), Z(61), Z(62), Z(63)] if T == "EXEC" else [I(n1), I(n2)]
+                st["cfg"] = c30
+                pairs.append(case_run(len(pairs) % 2, state(**st), 1, 0))
+    out.append(Stream("pairs-through-run", "run", "run.check", pairs,
+                      "every stack instruction followed by itself, by SWAP and by DUP of the same type, executed by PushInterpreter::run from a 4-deep stack: whole final state = model"))
     out.append(Stream("size-thresholds", "run", "stackops.check", cases,
                       "every stack type x 9 instructions on stacks %s deep (%d depths drawn per pair), indices at 0 / middle / depth-1 / depth / beyond" % (scales, per)))
     return out
